@@ -269,6 +269,10 @@ def run(repo: Repo, chk: Check):
                 twice = True
             stack.extend(b for i, (b, lab) in enumerate(cfg.succ[a]) if (a, i) not in pruned)
     chk.judge("R14.b", "mod_daemon:process_input:at most one reply per request", not twice, "a path passes two reply sites", None, where)
+    again = [c for c in ast.walk(fn) if isinstance(c, ast.Call) and norm(c.func) in ("process_input", "main")]
+    chk.judge("R14.b", "mod_daemon:process_input:the request is answered by this call only", not again,
+              f"process_input calls {sorted({norm(c.func) for c in again})} from inside: the inner call writes its own reply line and the outer call's finally block writes another "
+              f"one for the same request", {"calls": len(again)}, where)
     # (3) the reply is unconditional or guarded only by 'response is not None' and response is definitely a value
     for r in (reply_nodes if direct_reply else []):
         call = [c for c in ast.walk(cfg.nodes[r].ast) if is_reply(c)][0]
@@ -493,6 +497,28 @@ def run(repo: Repo, chk: Check):
                           f"would be taken for end of input and the daemon would stop answering", None, f"{path}:{n.ast.lineno}")
         chk.judge("R14.c", f"mod_daemon:main:loop exit {n.kind} under {g[-1] if g else None}", ok,
                   f"the request loop is left by a {n.kind} that is not guarded by end-of-input or EXIT (guards {g})", None, f"{path}:{n.ast.lineno}")
+    # the line that is compared with "EXIT" is text: bytes read from the binary layer never equal a str, the EXIT request would be answered like any other
+    def history(nm, at, depth=0, acc=None):
+        acc = [] if acc is None else acc
+        if depth > 5:
+            return acc
+        tids_ = [x.id for x in mcfg.nodes_of(at)]
+        for d in (mrd.at(tids_[0], nm) if tids_ else []):
+            if d.value is not None:
+                acc.append(norm(d.value))
+                for x in ast.walk(d.value):
+                    if isinstance(x, ast.Name) and isinstance(x.ctx, ast.Load) and x.id not in ("sys",):
+                        history(x.id, mcfg.nodes[d.node].ast, depth + 1, acc)
+        return acc
+    for n in mcfg.nodes:
+        if n.kind == "test" and n.id in mcfg.reachable() and isinstance(n.ast, ast.Compare) and any(isinstance(x, ast.Constant) and x.value == "EXIT" for x in ast.walk(n.ast)):
+            for nm in [x for x in ast.walk(n.ast) if isinstance(x, ast.Name)]:
+                hist = history(nm.id, n.ast)
+                binary = [h for h in hist if ".buffer" in h or "os.read(" in h or ".detach()" in h]
+                decoded = any(".decode(" in h or "str(" in h for h in hist)
+                chk.judge("R14.c", "mod_daemon:main:the line compared with 'EXIT' is text", not binary or decoded,
+                          f"{nm.id} comes from {binary}: a bytes object never equals 'EXIT', the daemon answers the EXIT request and keeps running", {"history": hist[:6]},
+                          f"{path}:{n.ast.lineno}")
     chk.judge("R14.c", "mod_daemon:main:loop is 'while True' with EOF and EXIT exits", isinstance(loop.test, ast.Constant) and loop.test.value is True and allowed >= 2,
               f"loop test {norm(loop.test)}, {allowed} recognised exits", None, f"{path}:{loop.lineno}")
     calls = [c for c in ast.walk(loop) if isinstance(c, ast.Call) and norm(c.func) == "process_input"]
